@@ -55,9 +55,10 @@ def chash(case):
 
 
 class Fail(object):
-    __slots__ = ('clause', 'sig', 'case', 'observed', 'expected', 'size')
+    __slots__ = ('clause', 'sig', 'case', 'observed', 'expected', 'size', 'origin')
 
     def __init__(self, clause, sig, case, observed, expected):
+        self.origin = None      # (seed, n) of the Hypothesis run that produced it, for shrinking later
         self.clause = clause
         self.sig = sig
         self.case = jsonable(case)
@@ -210,9 +211,12 @@ def hyp_settings(n, shrink=False, **kw):
                     suppress_health_check=list(HealthCheck), **kw)
 
 
-def hyp_run(stats, strategy, pred, n, seed, clause, pid=None, shrink_s=None):
+def hyp_run(stats, strategy, pred, n, seed, clause, pid=None, shrink_s=None, shrink=None, skey=None):
     """Generate n cases from strategy, run pred on each (collecting, never stopping at the first
-    failure), then shrink every *new* failure signature separately with Hypothesis' shrinker."""
+    failure).  Shrinking of each *new* failure signature: shrink=True here and now; shrink=None (default)
+    here only when not inside a forked shard worker -- for shards the runner shrinks centrally, once per
+    signature, if the check module defines STRATEGIES = {clause: lambda skey: strategy} (skey is recorded
+    with the failure so the same strategy can be rebuilt)."""
     import hypothesis
     from hypothesis import given
 
@@ -222,14 +226,54 @@ def hyp_run(stats, strategy, pred, n, seed, clause, pid=None, shrink_s=None):
     def explore(case):
         run_pred(pred, case, stats, clause)
 
-    before = set(stats.fails)
+    before = dict(stats.fails)
     explore()
+    for sig, f in stats.fails.items():
+        if before.get(sig) is not f and f.origin is None:
+            f.origin = (seed, n, skey)
+    if shrink is None:
+        shrink = not multiprocessing.current_process().daemon
+    if shrink:
+        shrink_all(stats, lambda skey_: strategy, {clause: pred}, pid, shrink_s,
+                   only=[s for s in stats.fails if s not in before])
+    return stats
+
+
+def shrink_all(stats, strategy_for, preds, pid=None, shrink_s=None, only=None):
+    """Shrink each new (not known) failure signature by re-running the Hypothesis run that found it.
+    strategy_for: {clause: fn(skey)->strategy} or fn(skey)->strategy; preds: {clause: pred}."""
     known = known_sigs(pid) if pid else {}
     if shrink_s is None:
         shrink_s = float(os.environ.get('VP_SHRINK_S', '40'))
-    for sig in [s for s in stats.fails if s not in before and s not in known]:
-        best = shrink_sig(strategy, pred, sig, n, seed, clause, shrink_s)
-        if best is not None and best.size <= stats.fails[sig].size:
+
+    def strat(f):
+        fn = strategy_for.get(f.clause) if isinstance(strategy_for, dict) else strategy_for
+        return fn(f.origin[2]) if fn is not None else None
+
+    todo = [s for s in (only if only is not None else list(stats.fails))
+            if s not in known and stats.fails[s].origin is not None and stats.fails[s].clause in preds
+            and strat(stats.fails[s]) is not None]
+
+    def one(sig):
+        f = stats.fails[sig]
+        seed, n = f.origin[0], f.origin[1]
+        out = Stats()
+        best = shrink_sig(strat(f), preds[f.clause], sig, n, seed, f.clause, shrink_s)
+        if best is not None:
+            out.fails[sig] = best
+        return out
+
+    if not todo:
+        return stats
+    if len(todo) > 1 and not multiprocessing.current_process().daemon:
+        res = parallel(one, todo[:16])
+    else:
+        res = Stats()
+        for sig in todo[:16]:
+            res.merge(one(sig))
+    for sig, best in res.fails.items():
+        if best.size <= stats.fails[sig].size:
+            best.origin = stats.fails[sig].origin
             stats.fails[sig] = best
     return stats
 
